@@ -3,11 +3,15 @@ CHECK = {
     "assumptions": ["crypto/rand is uniform (only spread, not uniformity, is tested)",
                     "the reference GF(2^8) (carry-less product mod 0x11b) and reference Lagrange interpolation in the harness are correct"],
     "units": [
-        unit("shamir", "shamir", ["shamir/c20_test.go"], "^TestVerif_C20_",
+        unit("shamir", "shamir", ["shamir/c20_test.go"], "^TestVerif_C20_(Field|SplitCombine|CombineRejects|Independence|CoefficientsPerByte)$",
              quick={"checks": 4000, "shards": 1, "cap": 600},
              thorough={"checks": 40000, "shards": 8, "cap": 2400},
              # Split draws from crypto/rand, so a failing case need not fail again when rapid re-runs it;
              # every oracle is a deterministic fact about the shares actually returned, so it still counts.
+             flaky_is_violation=True),
+        unit("concurrent-splits", "shamir", ["shamir/c20_test.go"], "^TestVerif_C20_ConcurrentSplits$",
+             quick={"checks": 600, "shards": 1, "cap": 600},
+             thorough={"checks": 5000, "shards": 8, "cap": 2400},
              flaky_is_violation=True),
         unit("unseal-threshold", "vault", ["vault/c20_test.go", "vault/c10_test.go"], "^TestVerif_C20_",
              quick={"checks": 150, "shards": 1, "cap": 900},
